@@ -14,15 +14,18 @@
   every `K` with `KernelsOK K` (`Obligations/QREnc.lean` proves it for the regenerated ones, `refKernels_ok` for
   the hand mirror the driver runs).  `FuncOK v` is the per-version, decidable statement "the coded function-pattern
   loops, run with position tags for the format/version bits, leave exactly the standard's function modules"; it is
-  kernel-evaluated for versions 1..10 (`funcOK_small`) — evaluating it in the kernel costs time and memory
-  quadratic in the symbol size (version 10: 15 s, 1.5 GB), so for versions 11..40 it is an explicit hypothesis of
-  the `_partial` theorems and is checked by the compiled driver on every run (`c07m funcok`).
+  a THEOREM for every version 1..40 (`mirror_funcOK_all`, wp `enc2`): the embed loops are written once over an
+  abstract matrix interface (Proofs/QREncFuncGen.lean; at `ByteMatrix` they are the model's loops by `rfl`), a
+  forward simulation (Proofs/QREncFuncSim.lean, QREncFuncBridge.lean) relates the `ByteMatrix` run to a run on a
+  matrix packed into one natural number, which the kernel evaluates in seconds per version
+  (Proofs/QREncFuncV*.lean); rows and columns that meet no function band are compared by general lemmas
+  (Proofs/QREncFuncPlain.lean).  The compiled driver still evaluates `FuncOK v` on every run (`c07m funcok`).
 -/
 import Gzx.Proofs.QREncPipeline
 import Gzx.Proofs.QREncEncode
 import Gzx.Proofs.QREncVersion
 import Gzx.Proofs.QREncKernels
-import Gzx.Proofs.QREncFuncAll
+import Gzx.Proofs.QREncFuncAll40
 namespace Gzx.Properties.C07Mirror
 open Gzx Gzx.QRRef Gzx.QREnc
 
@@ -80,24 +83,21 @@ theorem mirror_bch_eq_ref :
 
 /-! ### MatrixUtil_buildMatrix -/
 
-/-- `mirror_buildMatrix_eq_refMatrix`, versions 1..10 (kernel-checked function patterns): for every level, mask
-    and codeword stream that fits the data modules, `MatrixUtil_buildMatrix` on ANY matrix of the right size
-    (whatever it held: `clearMatrix` first) returns the reference matrix — every module. -/
-theorem mirror_buildMatrix_eq_refMatrix {K : Kernels} (hK : KernelsOK K) (v : Nat) (h1 : 1 ≤ v) (h10 : v ≤ 10)
+/-- `mirror_funcOK_all` (wp `enc2`): for EVERY version 1..40 the coded function-pattern loops — embedBasicPatterns
+    (finder patterns, separators with their emptiness checks, dark module, alignment patterns with the
+    centre-is-empty test, timing patterns), the embedTypeInfo loop and the maybeEmbedVersionInfo double loop —
+    started on the cleared matrix, run without error and leave at every module exactly what the standard puts there
+    (format / version bit positions as tags), and -1 on exactly the data modules. -/
+theorem mirror_funcOK_all (v : Nat) (h1 : 1 ≤ v) (h40 : v ≤ 40) : FuncOK v := funcOK_all v h1 h40
+
+/-- `mirror_buildMatrix_eq_refMatrix`: for every version 1..40, level, mask and codeword stream that fits the data
+    modules, `MatrixUtil_buildMatrix` on ANY matrix of the right size (whatever it held: `clearMatrix` first)
+    returns the reference matrix — every module. -/
+theorem mirror_buildMatrix_eq_refMatrix {K : Kernels} (hK : KernelsOK K) (v : Nat) (h1 : 1 ≤ v) (h40 : v ≤ 40)
     (ec : EC) (mask : Nat) (hk : mask < 8) (cw : List Nat) (hlen : (bitsOfBytes cw).length ≤ (zigzag v).length)
     (m0 : ByteMatrix) (hm0 : WFM (dimension v) m0) :
     buildMatrix K (bitsOfBytes cw) ec v (mask : Int) m0 = .ok (refByteMatrix v ec mask cw) :=
-  buildMatrix_eq_ref hK v h1 (by omega) (funcOK_small v h1 h10) (orderOK_all v) ec mask hk cw hlen m0 hm0
-
-/-- `mirror_buildMatrix_eq_refMatrix_partial`: the same for every version 1..40, GIVEN the per-version decidable
-    fact `FuncOK v` (missing part for 11..40: its kernel evaluation, see the file header; everything else —
-    naturality of the type/version-info loops in the bit values, the placement order, the data-placement fold — is
-    proved for all versions). -/
-theorem mirror_buildMatrix_eq_refMatrix_partial {K : Kernels} (hK : KernelsOK K) (v : Nat) (h1 : 1 ≤ v) (h40 : v ≤ 40)
-    (hf : FuncOK v) (ec : EC) (mask : Nat) (hk : mask < 8) (cw : List Nat)
-    (hlen : (bitsOfBytes cw).length ≤ (zigzag v).length) (m0 : ByteMatrix) (hm0 : WFM (dimension v) m0) :
-    buildMatrix K (bitsOfBytes cw) ec v (mask : Int) m0 = .ok (refByteMatrix v ec mask cw) :=
-  buildMatrix_eq_ref hK v h1 h40 hf (orderOK_all v) ec mask hk cw hlen m0 hm0
+  buildMatrix_eq_ref hK v h1 h40 (funcOK_all v h1 h40) (orderOK_all v) ec mask hk cw hlen m0 hm0
 
 /-- the ByteMatrix of the theorems above read as modules (1 = dark) IS the reference matrix -/
 theorem refByteMatrix_modules (v : Nat) (ec : EC) (mask : Nat) (cw : List Nat) :
@@ -131,15 +131,15 @@ theorem mirror_penalty_eq_ref {n : Nat} {rows : List (List Bool)} (hs : Square n
 
 example : Square 2 [[true, false], [false, true]] := ⟨rfl, by decide⟩
 
-/-- `mirror_chooseMask_eq_ref_partial`: `chooseMaskPattern` builds all eight matrices without error and returns
-    the reference's choice — the lowest penalty, the lowest pattern reference on a tie; the `math.MaxInt32` start
-    value is never met (penalty ≤ 85·n² + 100).  (Given `FuncOK v`; versions 1..10: `funcOK_small`.) -/
-theorem mirror_chooseMask_eq_ref_partial {K : Kernels} (hK : KernelsOK K) (v : Nat) (h1 : 1 ≤ v) (h40 : v ≤ 40)
-    (hf : FuncOK v) (ec : EC) (cw : List Nat) (hlen : (bitsOfBytes cw).length ≤ (zigzag v).length)
+/-- `mirror_chooseMask_eq_ref`: for every version 1..40 `chooseMaskPattern` builds all eight matrices without error
+    and returns the reference's choice — the lowest penalty, the lowest pattern reference on a tie; the
+    `math.MaxInt32` start value is never met (penalty ≤ 85·n² + 100). -/
+theorem mirror_chooseMask_eq_ref {K : Kernels} (hK : KernelsOK K) (v : Nat) (h1 : 1 ≤ v) (h40 : v ≤ 40)
+    (ec : EC) (cw : List Nat) (hlen : (bitsOfBytes cw).length ≤ (zigzag v).length)
     (m0 : ByteMatrix) (hm0 : WFM (dimension v) m0) :
     ∃ pens m, chooseMaskPattern K (bitsOfBytes cw) ec v m0 = .ok (((chooseMask v ec cw : Nat) : Int), pens, m) ∧
       WFM (dimension v) m :=
-  chooseMaskPattern_eq hK v h1 h40 hf ec cw hlen m0 hm0
+  chooseMaskPattern_eq hK v h1 h40 (funcOK_all v h1 h40) ec cw hlen m0 hm0
 
 /-! ### version choice -/
 
@@ -174,29 +174,19 @@ example : ∀ c ∈ [48, 49, 57], isDigit c := by intro c hc; unfold isDigit; si
 
 /-! ### composition -/
 
-/-- `mirror_encodeBack_eq_ref_partial`: everything `Encoder_encode` does once mode, header, data bits and version
-    are fixed — terminateBits, interleaveWithECBytes, NewByteMatrix, the QR_MASK_PATTERN hint (int / string / other,
-    valid or not) or chooseMaskPattern, the final MatrixUtil_buildMatrix — yields the reference symbol of the
-    payload, `refMatrix` of `finalCodewords` of `terminate`, with the hinted mask or the reference's own choice.
-    (Given `FuncOK v`; versions 1..10: `funcOK_small`.) -/
-theorem mirror_encodeBack_eq_ref_partial {K : Kernels} (hK : KernelsOK K) (v : Nat) (h1 : 1 ≤ v) (h40 : v ≤ 40)
-    (hf : FuncOK v) (maskHint : Option HintVal) (f : FrontResult) (hv : f.version = versionInfo v)
+/-- `mirror_encodeBack_eq_ref`: for every version 1..40, everything `Encoder_encode` does once mode, header, data
+    bits and version are fixed — terminateBits, interleaveWithECBytes, NewByteMatrix, the QR_MASK_PATTERN hint (int /
+    string / other, valid or not) or chooseMaskPattern, the final MatrixUtil_buildMatrix — yields the reference symbol
+    of the payload, `refMatrix` of `finalCodewords` of `terminate`, with the hinted mask or the reference's own choice. -/
+theorem mirror_encodeBack_eq_ref {K : Kernels} (hK : KernelsOK K) (v : Nat) (h1 : 1 ≤ v) (h40 : v ≤ 40)
+    (maskHint : Option HintVal) (f : FrontResult) (hv : f.version = versionInfo v)
     (hfit : f.headerAndDataBits.length ≤ 8 * dataCodewords v f.ec) :
     ∃ t, encodeBack K maskHint f = .ok t ∧ t.mode = f.mode ∧ t.version = v ∧ t.headerAndDataBits = f.headerAndDataBits ∧
       t.maskPattern = ((finalMask maskHint v f.ec f.headerAndDataBits : Nat) : Int) ∧
       t.terminated = bitsOfBytes (terminate (dataCodewords v f.ec) f.headerAndDataBits) ∧
       t.finalBits = bitsOfBytes (refCodewords v f.ec f.headerAndDataBits) ∧
       t.matrix = refByteMatrix v f.ec (finalMask maskHint v f.ec f.headerAndDataBits) (refCodewords v f.ec f.headerAndDataBits) :=
-  encodeBack_eq_ref hK v h1 h40 hf maskHint f hv hfit
-
-/-- the same without per-version hypothesis for versions 1..10 -/
-theorem mirror_encodeBack_eq_ref {K : Kernels} (hK : KernelsOK K) (v : Nat) (h1 : 1 ≤ v) (h10 : v ≤ 10)
-    (maskHint : Option HintVal) (f : FrontResult) (hv : f.version = versionInfo v)
-    (hfit : f.headerAndDataBits.length ≤ 8 * dataCodewords v f.ec) :
-    ∃ t, encodeBack K maskHint f = .ok t ∧ t.version = v ∧
-      t.matrix = refByteMatrix v f.ec (finalMask maskHint v f.ec f.headerAndDataBits) (refCodewords v f.ec f.headerAndDataBits) := by
-  obtain ⟨t, ht, _, hv', _, _, _, _, hm⟩ := encodeBack_eq_ref hK v h1 (by omega) (funcOK_small v h1 h10) maskHint f hv hfit
-  exact ⟨t, ht, hv', hm⟩
+  encodeBack_eq_ref hK v h1 h40 (funcOK_all v h1 h40) maskHint f hv hfit
 
 /-- `mirror_encode_eq_ref_partial` — the whole `Encoder_encode` mirror = the reference construction:
     for every content, level, CHARACTER_SET / GS1_FORMAT / QR_VERSION / QR_MASK_PATTERN hints (of any dynamic type),
@@ -205,15 +195,13 @@ theorem mirror_encodeBack_eq_ref {K : Kernels} (hK : KernelsOK K) (v : Nat) (h1 
     `appendKanjiBytes` = `packKanji` is correspondence-only), the call settles on the reference's version
     (`versionChoice`: the requested version iff it is in 1..40 and fits, else `minVersion`), writes the reference
     payload (header segments, character count, data) and returns the reference symbol with the hinted or the
-    reference's own mask — and returns a WriterException exactly when no version is admissible.
-    `FuncOK` is needed for the version chosen only (versions 1..10: `funcOK_small`). -/
+    reference's own mask — and returns a WriterException exactly when no version is admissible. -/
 theorem mirror_encode_eq_ref_partial {K : Kernels} (hK : KernelsOK K)
     (inp : EncInput) (ec : EC) (hec : ecOfInt inp.ecLevel = some ec)
     (hcs : ∀ cs, inp.charset = some cs → cs.known = true) (m : Mode)
     (hmode : chooseMode inp.content (match inp.charset with | some cs => cs.isSJIS | none => false) inp.sjis = .ok m)
     (bytes : List Nat) (count : Nat) (data : List Bool) (seg : Segment inp m bytes count data)
-    (he : ∀ e, eciOf inp m = some e → e < 128)
-    (hfunc : ∀ v, versionChoice inp ec m (headerBits (eciOf inp m) (gs1OfHint inp.gs1) m).length data.length = some v → FuncOK v) :
+    (he : ∀ e, eciOf inp m = some e → e < 128) :
     match versionChoice inp ec m (headerBits (eciOf inp m) (gs1OfHint inp.gs1) m).length data.length with
     | some v =>
       ∃ t, encode K inp = .ok t ∧ t.mode = m ∧ t.version = v ∧
@@ -222,7 +210,8 @@ theorem mirror_encode_eq_ref_partial {K : Kernels} (hK : KernelsOK K)
         t.finalBits = bitsOfBytes (refCodewords v ec t.headerAndDataBits) ∧
         t.matrix = refByteMatrix v ec (finalMask inp.mask v ec t.headerAndDataBits) (refCodewords v ec t.headerAndDataBits)
     | none => encode K inp = .error .writer :=
-  encode_eq_ref hK inp ec hec hcs m hmode bytes count data seg he hfunc
+  encode_eq_ref hK inp ec hec hcs m hmode bytes count data seg he
+    (fun v hv => funcOK_all v (versionChoice_range hv).1 (versionChoice_range hv).2.1)
 
 /-- the three proved segment kinds -/
 theorem mirror_segment_kinds (inp : EncInput) :
